@@ -52,3 +52,26 @@ pub fn c16_commitment_scalar_import(bytes: &[u8], arr: &[u8; 32])
     proof { lemma_all_zero_reverse(arr@); }
     assert(all_zero(arr@) ==> !b.is_some_spec() && !l.is_some_spec() && !b2.is_some_spec() && !l2.is_some_spec());
 }
+
+/// share containers hold unparsed point bytes and are validated WHEN USED: recombining shares into
+/// a signature, public key or decryption key succeeds only if every payload passed the checked
+/// decoder (is the encoding of a subgroup point)
+pub fn c16_shares_are_validated_when_combined(ss: &[SignatureShare], ps: &[PublicKeyShare], ds: &[SignDecryptionShare], es: &[ElGamalDecryptionShare])
+{
+    let a = Signature::from_shares(ss);
+    let b = PublicKey::from_shares(ps);
+    let c = SignCryptDecryptionKey::from_shares(ds);
+    let d = ElGamalDecryptionKey::from_shares(es);
+    assert forall|i: int| 0 <= i < ss@.len() && a is Ok implies <Sig as ShareTarget>::dec_of(sshare_raw(#[trigger] ss@[i]).val()) is Some by {
+        assert(sshares_raw(ss@)[i].sdl() is Some);
+    }
+    assert forall|i: int| 0 <= i < ps@.len() && b is Ok implies <Pk as ShareTarget>::dec_of((#[trigger] ps@[i]).0.val()) is Some by {
+        assert(pkshares_raw(ps@)[i].sdl() is Some);
+    }
+    assert forall|i: int| 0 <= i < ds@.len() && c is Ok implies <Pk as ShareTarget>::dec_of((#[trigger] ds@[i]).0.val()) is Some by {
+        assert(sdshares_raw(ds@)[i].sdl() is Some);
+    }
+    assert forall|i: int| 0 <= i < es@.len() && d is Ok implies <Pk as ShareTarget>::dec_of((#[trigger] es@[i]).0.val()) is Some by {
+        assert(egshares_raw(es@)[i].sdl() is Some);
+    }
+}
